@@ -89,6 +89,7 @@ def check_merge(ctx: Ctx):
             return False
         return isinstance(e, ast.Subscript) and isinstance(e.slice, ast.Name) and e.slice.id == ref and isinstance(e.value, ast.Name)
 
+    kinds: dict[int, str] = {}
     for c in calls:
         atoms = MatcherAtoms(ctx, f, pred, ref, score)
         form = atoms.form
@@ -112,6 +113,7 @@ def check_merge(ctx: Ctx):
         v_cr, _ = implication(form, prem, lambda a: a["cr"])
         v_ncr, _ = implication(form, prem, lambda a: not a["cr"])
         kind = "merge" if v_cr is True else "first" if v_ncr is True else "unknown"
+        kinds[id(c)] = kind if okb else "unknown"
         construct = f"{construct}[{kind}]"
         ctx.decide("R14.1", f, c, construct + ":binding", "label map entry binds (prediction label -> reference label) of the candidate", True if okb else (False if crossed else None), {"pred_arg": norm(pa) if pa else None, "ref_arg": norm(ra) if ra else None})
 
@@ -179,7 +181,7 @@ def check_merge(ctx: Ctx):
     if ncs is None:
         ctx.undecided("R14.5", f, f.node, "new_combination_score", "combined-score helper not found")
     else:
-        _check_combination(ctx, cls, f, ncs, ref, pred)
+        _check_combination(ctx, cls, f, ncs, ref, pred, kinds, calls)
 
 
 def _check_score_update(ctx, prog, f, call, construct, ref, score_vars: set[str]):
@@ -221,7 +223,109 @@ def _check_score_update(ctx, prog, f, call, construct, ref, score_vars: set[str]
     ctx.decide("R14.4", f, found, construct, f"recorded score of the reference is the score that justified the assignment ({'/'.join(sorted(score_vars))})", True if ok else False, {"assigned": norm(found.value)})
 
 
-def _check_combination(ctx, cls, f, ncs: Func, ref, pred):
+def _block_of(pm, node):
+    """(statement, statement list) that directly contains `node`."""
+    st = node
+    while id(st) in pm and not isinstance(st, ast.stmt):
+        st = pm[id(st)]
+    parent = pm.get(id(st))
+    for fld in ("body", "orelse", "finalbody"):
+        b = getattr(parent, fld, None)
+        if isinstance(b, list) and st in b:
+            return st, b
+    return st, None
+
+
+def _mirror_index(prog, f: Func, name: str, ref: str, pred: str, kinds: dict, calls: list) -> Optional[str]:
+    """Is the local dict `name` a mirror of the label map, keyed by reference label with the list of
+    predictions assigned to it in assignment order?  Returns None if it is, else the reason it is not.
+
+    The invariant  name[r] == labelmap.get_pred_labels_matched_to_ref(r)  holds by induction if
+      * `name` starts empty (one definition, an empty dict) and so does the label map,
+      * every add_labelmap_entry(p, r) site has, in its own block, exactly one update of `name` with
+        the same (p, r):  name[r].append(p)  /  name.setdefault(r, []).append(p)  anywhere, or
+        name[r] = [p]  at a site that is only reached for an unassigned reference,
+      * `name` is not updated, passed on or aliased anywhere else."""
+    pm = prog.parents(f)
+    defs = [a for a in assignments_to(f, name) if not (isinstance(a, ast.Assign) and all(isinstance(t, ast.Subscript) and isinstance(t.value, ast.Name) and t.value.id == name for t in a.targets))]
+    if len(defs) != 1:
+        return f"{name} has {len(defs)} definitions"
+    d = defs[0]
+    dv = d.value if isinstance(d, (ast.Assign, ast.AnnAssign)) else None
+    empty = (isinstance(dv, ast.Dict) and not dv.keys) or (isinstance(dv, ast.Call) and not dv.args and not dv.keywords and dotted(dv.func) in ("dict",))
+    if not empty:
+        return f"{name} is not created as an empty dict"
+
+    def upd(n) -> Optional[tuple[str, ast.AST]]:
+        # name[ref].append(pred) / name.setdefault(ref, []).append(pred)
+        if isinstance(n, ast.Call) and isinstance(n.func, ast.Attribute) and n.func.attr == "append" and len(n.args) == 1 and isinstance(n.args[0], ast.Name) and n.args[0].id == pred:
+            b = n.func.value
+            if isinstance(b, ast.Subscript) and isinstance(b.value, ast.Name) and b.value.id == name and isinstance(b.slice, ast.Name) and b.slice.id == ref:
+                return "append", n
+            if isinstance(b, ast.Call) and isinstance(b.func, ast.Attribute) and b.func.attr == "setdefault" and isinstance(b.func.value, ast.Name) and b.func.value.id == name and len(b.args) == 2 and isinstance(b.args[0], ast.Name) and b.args[0].id == ref and isinstance(b.args[1], ast.List) and not b.args[1].elts:
+                return "append", n
+        if isinstance(n, ast.Assign) and len(n.targets) == 1:
+            t = n.targets[0]
+            if isinstance(t, ast.Subscript) and isinstance(t.value, ast.Name) and t.value.id == name and isinstance(t.slice, ast.Name) and t.slice.id == ref:
+                v = n.value
+                if isinstance(v, ast.List) and len(v.elts) == 1 and isinstance(v.elts[0], ast.Name) and v.elts[0].id == pred:
+                    return "init", n
+        return None
+
+    updates: dict[int, tuple[str, ast.AST]] = {}
+    consumed: set[int] = set()
+    for n in walk_no_nested(f.node):
+        u = upd(n)
+        if u is not None:
+            st, _ = _block_of(pm, u[1])
+            updates[id(st)] = (u[0], st)
+            for m in ast.walk(u[1]):
+                if isinstance(m, ast.Name) and m.id == name:
+                    consumed.add(id(m))
+    # every other occurrence of the name must be a pure read:  name[ref] (copied, iterated, len) or `in`
+    for n in walk_no_nested(f.node):
+        if isinstance(n, ast.Name) and n.id == name and id(n) not in consumed and n is not getattr(d, "targets", [None])[0] and n is not getattr(d, "target", None):
+            par = pm.get(id(n))
+            if isinstance(par, ast.Subscript) and par.value is n and isinstance(par.ctx, ast.Load):
+                gp = pm.get(id(par))
+                pure = (
+                    (isinstance(gp, ast.Call) and par in gp.args and isinstance(gp.func, ast.Name) and gp.func.id in ("list", "tuple", "len", "sorted"))
+                    or (isinstance(gp, ast.Subscript) and gp.value is par and isinstance(gp.ctx, ast.Load))
+                    or (isinstance(gp, ast.Attribute) and gp.attr == "copy")
+                    or isinstance(gp, (ast.Starred, ast.BinOp, ast.For, ast.comprehension))
+                )
+                if pure:
+                    continue
+                return f"{name}[...] escapes or is modified at line {n.lineno}: {norm(gp) if gp is not None else ''}"
+            if isinstance(par, ast.Compare) and n in par.comparators and all(isinstance(o, (ast.In, ast.NotIn)) for o in par.ops):
+                continue
+            return f"{name} is used other than as a mirror at line {n.lineno}: {norm(par) if par is not None else ''}"
+    seen_sites = set()
+    for c in calls:
+        st, block = _block_of(pm, c)
+        if block is None or not (isinstance(st, ast.Expr) and st.value is c):
+            return f"label map update at line {c.lineno} is not a plain statement"
+        us = [updates[id(s)] for s in block if id(s) in updates]
+        k = kinds.get(id(c), "unknown")
+        if not us and k in ("first", "merge") and not any(name in {m.id for m in ast.walk(s_) if isinstance(m, ast.Name)} for s_ in block):
+            return f"!label map update at line {c.lineno} ({k} site) is not recorded in {name}: the list handed to the combined score misses that prediction"
+        if len(us) != 1:
+            return f"label map update at line {c.lineno} has {len(us)} updates of {name} in its block"
+        if us[0][0] == "init" and k == "merge":
+            return f"!{name}[{ref}] = [{pred}] at line {us[0][1].lineno} (merge site) discards the predictions already matched to the reference"
+        if us[0][0] == "init" and k != "first":
+            return f"{name}[{ref}] = [{pred}] at line {us[0][1].lineno} may overwrite the predictions already matched to the reference"
+        if k == "unknown":
+            return f"label map update at line {c.lineno} does not bind the candidate (prediction, reference)"
+        seen_sites.add(id(us[0][1]))
+    extra = [st for k_, (_, st) in updates.items() if id(st) not in seen_sites]
+    if extra:
+        return f"{name} is updated at line {extra[0].lineno} without a label map update in the same block"
+    # the label map must not be filled by anything else in the function
+    return None
+
+
+def _check_combination(ctx, cls, f, ncs: Func, ref, pred, kinds=None, add_calls=None):
     prog = ctx.prog
     # call site in _match_instances
     sites = calls_resolving_to(prog, f, ncs)
@@ -253,6 +357,34 @@ def _check_combination(ctx, cls, f, ncs: Func, ref, pred):
                     d = single_def(f, a.id)
                     src = d if d is not None else a
                 ok = isinstance(src, ast.Call) and isinstance(src.func, ast.Attribute) and src.func.attr == "get_pred_labels_matched_to_ref" and len(src.args) == 1 and isinstance(src.args[0], ast.Name) and src.args[0].id == ref
+                if not ok and kinds is not None:
+                    # a copy of <index>[ref] of a local index kept in lockstep with the label map
+                    inner = src
+                    if isinstance(inner, ast.Call) and isinstance(inner.func, ast.Name) and inner.func.id in ("list", "tuple", "sorted") and len(inner.args) == 1:
+                        inner = inner.args[0]
+                    elif isinstance(inner, ast.Call) and isinstance(inner.func, ast.Attribute) and inner.func.attr == "copy" and not inner.args:
+                        inner = inner.func.value
+                    elif isinstance(inner, ast.Subscript) and isinstance(inner.slice, ast.Slice) and inner.slice.lower is None and inner.slice.upper is None and inner.slice.step is None:
+                        inner = inner.value
+                    elif isinstance(inner, ast.BinOp):
+                        inner = None
+                    if isinstance(inner, ast.Subscript) and isinstance(inner.value, ast.Name) and isinstance(inner.slice, ast.Name) and inner.slice.id == ref and inner is not src:
+                        why = _mirror_index(prog, f, inner.value.id, ref, pred, kinds, add_calls or [])
+                        if why is None:
+                            ok = True
+                            ctx.ok("R14.5", f, c, f"{f.qual}:{inner.value.id}", f"local index {inner.value.id} is updated in lockstep with the label map (same block, same (prediction, reference)), so {norm(inner)} is the list of predictions matched to the reference")
+                        elif why.startswith("!"):
+                            ctx.violated("R14.5", f, c, f"{f.qual}:{inner.value.id}", "already-matched predictions handed to the combined score are all predictions mapped to the reference", {"index": inner.value.id, "reason": why[1:]})
+                            continue
+                        else:
+                            ctx.undecided("R14.5", f, c, f"{f.qual}:{inner.value.id}", f"local index is not a provable mirror of the label map: {why}")
+                            continue
+                if not ok and isinstance(src, ast.Subscript) and isinstance(src.value, ast.Name) and isinstance(src.slice, ast.Name) and src.slice.id == ref and src.value.id not in {p_.name for p_ in f.params}:
+                    # an element of a local container handed over uncopied: does the helper modify it?
+                    mutated = [n for n in walk_no_nested(ncs.node) if isinstance(n, ast.Call) and isinstance(n.func, ast.Attribute) and n.func.attr in ("append", "extend", "insert", "remove", "pop", "clear") and isinstance(n.func.value, ast.Name) and n.func.value.id == pn]
+                    if mutated:
+                        ctx.violated("R14.5", f, c, f"{f.qual}->new_combination_score:{pn}", "already-matched predictions handed to the combined score are all predictions mapped to the reference", {"arg": norm(src), "reason": f"the helper modifies its parameter {pn} in place (line {mutated[0].lineno}), so the caller's {src.value.id}[{ref}] also receives candidates whose merge is rejected"})
+                        continue
                 ctx.decide("R14.5", f, c, f"{f.qual}->new_combination_score:{pn}", "already-matched predictions are those mapped to the loop's reference label", True if ok else None, {"arg": norm(src)})
     # body of new_combination_score
     g = ncs
